@@ -3,9 +3,14 @@ package mon
 import (
 	"fmt"
 	"math/rand"
+	"os"
+	"path/filepath"
 	"regexp"
 	"strings"
+	"time"
 	"verif/cfg"
+	"verif/cli"
+	"verif/work"
 
 	"verif/gen"
 	"verif/probe"
@@ -95,7 +100,7 @@ func filesKey(u *probe.Unit) string {
 }
 
 func checkC01(c *Ctx) error {
-	c.Rule = "seeded random configurations over the quantifier's dimension table (creation method, value/type forms, getter types incl. value types, must-getter settings, scopes, tags, calls, withers, fields, decorators, literal types incl. non-finite floats, pattern shapes, import forms and alias names, 1-4 input files), each run through the real binary in normal and --stub mode; accepted outputs are checked with gofmt, compiled by the Go compiler against the runtime version pinned in /repo/go.mod, and linked into a probe whose start proves that every init() ran; plus pairs of getters from a pool in which one getter spells another one's Must…/…InContext accessor (accepted pairs have to compile). distinct = distinct (mode, input files); non-trivial = at least one service"
+	c.Rule = "seeded random configurations over the quantifier's dimension table (creation method, value/type forms, getter types incl. value types, must-getter settings, scopes, tags, calls, withers, fields, decorators, literal types incl. non-finite floats, pattern shapes, import forms and alias names, 1-4 input files), each run through the real binary in normal and --stub mode; accepted outputs are checked with gofmt, compiled by the Go compiler against the runtime version pinned in /repo/go.mod, and linked into a probe whose start proves that every init() ran; plus pairs of getters from a pool in which one getter spells another one's Must…/…InContext accessor (accepted pairs have to compile); pairs of configurations generated into one package as two containers have to compile together. distinct = distinct (mode, input files); non-trivial = at least one service"
 	c.Assumptions = []string{"the Go compiler and gofmt are the judges", "all symbols exist in the fixture universe (the property's proviso)", "identifiers are distinct legal non-predeclared Go identifiers by construction of the generator"}
 	lab, err := probe.NewLab(c.W)
 	if err != nil {
@@ -170,6 +175,7 @@ func checkC01(c *Ctx) error {
 		return err
 	}
 	judgeC01(c, units)
+	cohabitPairs(c, lab, c.Pick(24, 600))
 	// accept/reject must not depend on the mode (shared with C17; cheap to assert here)
 	for i := 0; i+1 < len(units); i += 2 {
 		if units[i].Accepted != units[i+1].Accepted {
@@ -177,4 +183,50 @@ func checkC01(c *Ctx) error {
 		}
 	}
 	return nil
+}
+
+// cohabitPairs generates pairs of accepted configurations into ONE package (different container types and constructors, as an
+// application with two dependency graphs does): each generated file is complete on its own and both compile together.
+func cohabitPairs(c *Ctx, lab *probe.Lab, nPairs int) {
+	Par(nPairs, 8, func(k int) {
+		r := rand.New(rand.NewSource(c.Seed*4099 + int64(k)))
+		o := gen.DefaultOpts()
+		o.BigProb = 0
+		dir := filepath.Join(c.W.Mod, "gen", fmt.Sprintf("pair%04d", k))
+		cwd := c.W.TempDir("c01p")
+		files := map[string]string{}
+		ok := true
+		for j, nm := range []string{"A", "B"} {
+			conf := gen.Behaviour(r, o)
+			conf.Meta.Pkg = cfg.P("cohabit")
+			conf.Meta.ContainerType = cfg.P("Ctr" + nm)
+			conf.Meta.ContainerConstructor = cfg.P("New" + nm)
+			conf.Meta.DefaultMustGetter = cfg.P(true)
+			y := conf.YAML()
+			in := fmt.Sprintf("%c.yaml", 'a'+j)
+			_ = work.WriteFile(filepath.Join(cwd, in), []byte(y))
+			files["input/"+in] = y
+			out := filepath.Join(dir, fmt.Sprintf("gen_%c.go", 'a'+j))
+			_ = os.MkdirAll(dir, 0o755)
+			run := cli.Do(c.W, "", nil, cwd, out, "build", "-i", in, "-o", out)
+			ok = ok && run.Res.Exit == 0
+		}
+		if !ok {
+			_ = os.RemoveAll(dir)
+			c.Add("container_pairs_with_a_rejected_half", 1)
+			return
+		}
+		_ = lab.LocalFiles(dir, "cohabit")
+		res := c.W.Go(c.W.Mod, false, 10*time.Minute, "build", "./gen/"+filepath.Base(dir)+"/")
+		c.Eval("pair:"+files["input/a.yaml"]+files["input/b.yaml"], true)
+		c.Add("container_pairs_compiled_in_one_package", 1)
+		if res.Exit != 0 {
+			for _, f := range []string{"gen_a.go", "gen_b.go"} {
+				b, _ := os.ReadFile(filepath.Join(dir, f))
+				files[f] = string(b)
+			}
+			c.Violate("two-containers-in-one-package:"+errClass(res.Stderr+res.Stdout), fmt.Sprintf("two accepted configurations (container types CtrA/CtrB, constructors NewA/NewB) generated into one package do not compile together:\n%s", firstLines(res.Stderr+res.Stdout, 10)), files)
+		}
+		_ = os.RemoveAll(dir)
+	})
 }
